@@ -498,7 +498,13 @@ def inject(items, rng):
         c[ops_[0]]["opcode"], c[ops_[0]]["opcode_text"] = int.from_bytes(b"abcd", "little"), '"abcd"'
         c[ops_[1]]["opcode"], c[ops_[1]]["opcode_text"] = int.from_bytes(b"abcd", "little"), "0x%x" % int.from_bytes(b"abcd", "little")
         out.append(("duplicate-opcode", "string-vs-number", c))
-    for t, txt in (("int32", '"s"'), ("string", "5"), ("bool", "1"), ("uint8", "1.5"), ("guid", '"1234"'), ("float32", '"x"'), ("uint8", "-1"), ("uint8", "256"), ("int16", "40000"), ("date", "5")):
+    # every (type class, literal kind) pair that is not assignable: integers take integer literals only; floats take numbers, inf, -inf, nan; strings and guids
+    # take string literals (a guid one of 32 hex digits); bools take true / false
+    lits = {"int": "5", "float": "1.5", "inf": "inf", "neginf": "-inf", "nan": "nan", "true": "true", "false": "false", "str": '"s"', "guidstr": '"01234567-89ab-cdef-0123-456789abcdef"'}
+    okfor = {"int32": {"int"}, "uint8": {"int"}, "int64": {"int"}, "uint64": {"int"}, "byte": {"int"}, "float32": {"int", "float", "inf", "neginf", "nan"},
+             "float64": {"int", "float", "inf", "neginf", "nan"}, "string": {"str", "guidstr"}, "bool": {"true", "false"}, "guid": {"guidstr"}}
+    mism = [(t, lits[k]) for t in okfor for k in lits if k not in okfor[t]]
+    for t, txt in [("int32", '"s"'), ("string", "5"), ("bool", "1"), ("uint8", "1.5"), ("guid", '"1234"'), ("float32", '"x"'), ("uint8", "-1"), ("uint8", "256"), ("int16", "40000"), ("date", "5")] + mism:
         c = clone()
         c.append({"kind": "const", "type": t, "name": "zzc", "text": txt, "value_text": txt, "opcode": None})
         out.append(("const-not-assignable", "%s = %s" % (t, txt), c))
